@@ -571,4 +571,142 @@ theorem play_phase {c c1 : Cli.State} {v : Srv.State} {now : Nat} {key appS : By
   · rw [hv3, hv1]
   · rw [hv3]; simp [mapInsert, mapGet]
 
+/-- the state `C02_play_media` starts from -/
+structure PlayReady (c : Cli.State) (v : Srv.State) (sid : Nat) (app key : Bytes) : Prop where
+  inStep : InStep c v
+  cst : c.st = .playing
+  cact : c.activeStream = some sid
+  sid32 : sid < 4294967296
+  vconn : v.connected = true
+  vapp : v.app = some app
+  vstream : mapGet sid v.streams = some (.playing key)
+
+/-- **C02, play workflow.**  As `publish_workflow`, with `request_playback`: the server is shown exactly
+    one connection request and exactly one play request (connected application, requested key, stream
+    1, default start/duration/reset), the client exactly "connection accepted", then the reset notice
+    and "playback accepted", and the pair ends `PlayReady` on stream 1. -/
+theorem play_workflow (ccfg : Cli.Config) (scfg : Srv.Config) (now : Nat) (app key : Bytes)
+    (hcw : CfgWF ccfg) (hco : CfgOK ccfg) (hbuf : ccfg.bufferLengthMs < 4294967296) (hsw : SCfgWF scfg)
+    (happ : Utf8.valid app = true) (hkey : Utf8.valid key = true) (hkl : key.length ≤ 65535)
+    {v0 : Srv.State} {rs0 : List Srv.Res} (hnew : Srv.new scfg now = .ok (v0, rs0)) :
+    ∃ c1 b4, CliPart.drain ({ cfg := ccfg } : Cli.State) now (bytesS rs0) = (c1, .ok (bannerEvents scfg now b4)) ∧
+    ∀ c2 r1, Cli.requestConnection c1 now app = (c2, .ok r1) →
+    ∃ p1 v1, r1 = .out p1 ∧
+      SrvPart.drain v0 now p1.bytes = (v1, .ok [.ev (.connectionRequested 0 (trimApp app))]) ∧
+    ∀ v2 rs2, Srv.acceptRequest v1 now 0 = (v2, .ok rs2) →
+    ∃ p2 c3 pa pb v3, rs2 = [.out p2] ∧
+      CliPart.drain c2 now p2.bytes = (c3, .ok [.out pa, .ev .connectionAccepted, .out pb]) ∧
+      SrvPart.drain v2 now (pa.bytes ++ pb.bytes) = (v3, .ok []) ∧
+    ∀ c4 r3, Cli.requestStream c3 now (.play key) = (c4, .ok r3) →
+    ∃ p3 v4 p4 c5 p5 p6 v5, r3 = .out p3 ∧
+      SrvPart.drain v3 now p3.bytes = (v4, .ok [.out p4]) ∧
+      CliPart.drain c4 now p4.bytes = (c5, .ok [.out p5, .out p6]) ∧
+      SrvPart.drain v4 now (p5.bytes ++ p6.bytes) =
+        (v5, .ok [.ev (.playRequested 1 (trimApp app) key .liveOrRecorded none false 1)]) ∧
+    ∀ v6 rs6, Srv.acceptRequest v5 now 1 = (v6, .ok rs6) →
+    ∃ c6, CliPart.drain c5 now (bytesS rs6) =
+        (c6, .ok [.ev (.unhandleableOnStatus (str "NetStream.Play.Reset")), .ev .playbackAccepted]) ∧
+      PlayReady c6 v6 1 (trimApp app) key := by
+  obtain ⟨c1, b4, hd0, hin1, hc1, hv0⟩ := banner_phase ccfg hnew hsw.win hsw.bw
+  refine ⟨c1, b4, hd0, ?_⟩
+  intro c2 r1 h1
+  have hc1cfg : c1.cfg = ccfg := by rw [hc1]
+  have hc1txn : c1.nextTxn = 1 := by rw [hc1]
+  have hv0fms : v0.fmsVersion = scfg.fmsVersion := by rw [hv0]
+  have hv0req : v0.nextReq = 0 := by rw [hv0]
+  have hv0ns : v0.nextStream = 1 := by rw [hv0]
+  obtain ⟨p1, v1, hr1, hd1, hrest⟩ := connect_phase hin1 (by rw [hc1cfg]; exact hcw) (by rw [hc1cfg]; exact hco) happ
+    (by rw [hc1txn]; decide) (by rw [hv0fms]; exact hsw.fms) h1
+  rw [hv0req] at hd1 hrest
+  refine ⟨p1, v1, hr1, hd1, ?_⟩
+  intro v2 rs2 h2
+  obtain ⟨p2, c3, pa, pb, v3, hrs2, hd2, hd3, hin3, hc3, hv3⟩ := hrest v2 rs2 h2
+  refine ⟨p2, c3, pa, pb, v3, hrs2, hd2, hd3, ?_⟩
+  intro c4 r3 h3
+  have hc3txn : c3.nextTxn = 2 := by rw [hc3, hc1txn]
+  have hc3cfg : c3.cfg = ccfg := by rw [hc3, hc1cfg]
+  have hv3ns : v3.nextStream = 1 := by rw [hv3, hv0ns]
+  have hv3req : v3.nextReq = 1 := by rw [hv3]
+  have hv3c : v3.connected = true := by rw [hv3]
+  have hv3a : v3.app = some (trimApp app) := by rw [hv3]
+  obtain ⟨p3, v4, p4, c5, p5, p6, v5, hr3, hd4, hd5, hd6, hrest2⟩ := play_phase (appS := trimApp app) hin3
+    (by rw [hc3txn]; decide) (by rw [hv3ns]; decide) hkey hkl (by rw [hc3cfg]; exact hbuf) hv3c hv3a h3
+  rw [hv3req, hv3ns] at hd6
+  rw [hv3req] at hrest2
+  refine ⟨p3, v4, p4, c5, p5, p6, v5, hr3, hd4, hd5, hd6, ?_⟩
+  intro v6 rs6 h6
+  obtain ⟨c6, hd7, _, hin6, hc6, hv6, hstream⟩ := hrest2 v6 rs6 h6
+  rw [hv3ns] at hc6 hstream
+  refine ⟨c6, hd7, hin6, by rw [hc6], by rw [hc6], by decide, ?_, ?_, hstream⟩
+  · rw [hv6]; exact hv3c
+  · rw [hv6]; exact hv3a
+
+theorem sendAll_frame (items : List Interop.Item) : ∀ (v v' : Srv.State) (ps : List Ser.Packet) (sid : Nat),
+    Interop.sendAll v sid items = some (v', ps) → v' = { v with ser := v'.ser } := by
+  induction items with
+  | nil =>
+    intro v v' ps sid h
+    simp only [Interop.sendAll, Option.some.injEq, Prod.mk.injEq] at h
+    rw [← h.1]
+  | cons it rest ih =>
+    intro v v' ps sid h
+    simp only [Interop.sendAll] at h
+    split at h
+    · rename_i v1 p hsm
+      split at h
+      · rename_i v2 ps2 hrest
+        simp only [Option.some.injEq, Prod.mk.injEq] at h
+        obtain ⟨h1, _⟩ := h
+        subst h1
+        have h2 := ih v1 v2 ps2 sid hrest
+        have h1 : v1 = { v with ser := v1.ser } := by
+          unfold Srv.sendMedia at hsm
+          split at hsm
+          · simp at hsm
+          · rename_i s' p' hsend
+            simp only [Prod.mk.injEq, Except.ok.injEq] at hsm
+            obtain ⟨e1, _⟩ := hsm
+            subst e1
+            unfold Srv.send at hsend
+            split at hsend
+            · simp at hsend
+            · simp only [Except.ok.injEq, Prod.mk.injEq] at hsend
+              rw [← hsend.1]
+        rw [h2, h1]
+      · simp at h
+    · simp at h
+
+/-- **media on a playing pair** -/
+theorem play_items {c : Cli.State} {v v' : Srv.State} {sid : Nat} {app key : Bytes}
+    (hr : PlayReady c v sid app key) (items : List Interop.Item) (ps : List Ser.Packet) (now : Nat) (mask : List Bool)
+    (hts : ∀ it ∈ items, it.ts < 4294967296) (hsend : Interop.sendAll v sid items = some (v', ps)) :
+    let kept := keepSel mask (ps.zip (items.map (Interop.Item.msg sid)))
+    ∃ c', CliPart.drain c now (wire kept) = (c', .ok ((msgs kept).flatMap Interop.evOfC)) ∧
+      PlayReady c' v' sid app key := by
+  intro kept
+  obtain ⟨core', hd, hl⟩ := Interop.play_media v v' c items ps sid now mask (Or.inl hr.cst) hr.cact hr.sid32 hts
+    hr.inStep.sc hsend
+  have hf := sendAll_frame items v v' ps sid hsend
+  refine ⟨_, hd, ⟨?_, hl⟩, hr.cst, hr.cact, hr.sid32, ?_, ?_, ?_⟩
+  · rw [hf]; exact hr.inStep.cs
+  · rw [hf]; exact hr.vconn
+  · rw [hf]; exact hr.vapp
+  · rw [hf]; exact hr.vstream
+
+/-- **stop on a playing pair**: the server raises exactly "play finished" and forgets the stream -/
+theorem stop_playback {c c1 : Cli.State} {v : Srv.State} {sid : Nat} {app key : Bytes} {now : Nat} {rs : List Cli.Res}
+    (hr : PlayReady c v sid app key) (h : Cli.stop c now true = (c1, .ok rs)) :
+    ∃ p v1, rs = [.out p] ∧ SrvPart.drain v now p.bytes = (v1, .ok [.ev (.playFinished app key)]) ∧
+      InStep c1 v1 ∧ c1.st = .connected ∧ c1.activeStream = none ∧ mapGet sid v1.streams = none := by
+  obtain ⟨p, body, hrs, hp, he, hc1⟩ := stop_ok (play := true) (by simp [hr.cst]) hr.cact hr.sid32 h
+  have hstep : SrvSteps.steps v now (msgs [(p, ({ ts := epoch now, typ := 20, msid := sid, data := body } : Msg))]) = _ :=
+    srv_steps_one v _ now _ _ (by
+      rw [srv_stepMsg_of (deleteStreamCmd_wf sid hr.sid32) hp]
+      exact srv_deleteStream v now _ sid app _ hr.sid32 hr.vconn hr.vapp hr.vstream)
+  obtain ⟨core1, hd, hl⟩ := srv_recv now hr.inStep.cs he hstep
+  rw [wire_one] at hd
+  refine ⟨p, _, hrs, hd, ⟨hl, ?_⟩, by rw [hc1], by rw [hc1], ?_⟩
+  · rw [hc1]; exact hr.inStep.sc
+  · exact mapGet_mapRemove_self sid v.streams
+
 end Rml.Workflow
